@@ -5,8 +5,9 @@ from . import gen
 
 H = gen.HTML_NS
 TEXTS = ["x", "hello world", "a b  c", "é", "\U0001F600", "1 < 2 & 3 > 2", "\"quoted\" 'single'", "tab\there", "line\nbreak",
-         " nbsp ", "a&amp;b", "&lt;not-a-tag&gt;", "=", "`", "trailing ", " leading", "--", "]]>", "</p>", "&#65;", "p&q;"]
-ATTRS = [("id", ["a", "b1"]), ("class", ["c d", "e"]), ("title", ["t", "a \"q\" 'r'", "x<y", "a&b", "", "é"]), ("lang", ["en"]),
+         " nbsp ", "a&amp;b", "&lt;not-a-tag&gt;", "=", "`", "trailing ", " leading", "--", "]]>", "</p>", "&#65;", "p&q;",
+         "\u00c9COLE 42", "\u00dcbersicht", "\u00c6=1", "\u00d0x \u00de9", "caf\u00e9s", "\u2260b"]
+ATTRS = [("id", ["a", "b1"]), ("class", ["c d", "e"]), ("title", ["t", "a \"q\" 'r'", "x<y", "a&b", "", "é", "\u00c9COLE 42", "\u00dcbersicht", "\u00c6=1", "\u00d8x", "\u2260b"]), ("lang", ["en"]),
          ("data-x", ["1", "a=b", "`", " "]), ("hidden", ["", "hidden"]), ("dir", ["ltr"]), ("style", ["color: red"])]
 PHRASING = ["b", "i", "em", "strong", "span", "code", "small", "sub", "sup", "u", "s", "q", "cite", "abbr", "kbd", "var", "samp",
             "mark", "bdo", "bdi"]
